@@ -70,7 +70,7 @@ def rand_domain(rng):
         return [a, b]
     a, b = rand_mag(rng), rand_mag(rng)
     if a == b:
-        b = a * 2 + 1
+        b = a + 1.0
     return [a, b]
 
 
